@@ -274,12 +274,7 @@ func (p *provider) setSingleton(key instanceKey, instance any) {
 		return
 	}
 
-	p.singletons.Store(key, instance)
-
-	// Track key for iteration during disposal
-	p.singletonKeysMu.Lock()
-	p.singletonKeys = append(p.singletonKeys, key)
-	p.singletonKeysMu.Unlock()
+	p.storeSingleton(key, instance)
 
 	// Track if disposable
 	if d, ok := instance.(Disposable); ok {
@@ -287,6 +282,22 @@ func (p *provider) setSingleton(key instanceKey, instance any) {
 		p.disposables = append(p.disposables, d)
 		p.disposablesMu.Unlock()
 	}
+}
+
+// storeSingleton makes an instance resolvable under key without taking ownership
+// of it again: used for the additional identities of an instance that is already
+// tracked for disposal.
+func (p *provider) storeSingleton(key instanceKey, instance any) {
+	if instance == nil {
+		return
+	}
+
+	p.singletons.Store(key, instance)
+
+	// Track key for iteration during disposal
+	p.singletonKeysMu.Lock()
+	p.singletonKeys = append(p.singletonKeys, key)
+	p.singletonKeysMu.Unlock()
 }
 
 // findDescriptor finds a descriptor for the given service type and optional key.
